@@ -72,7 +72,15 @@ def integrands(dims):
         last = _s(args[-1], dims[-1])
         return _s(args[0], dims[0]) + 0.0 * last  # value of the first argument, shape of the last
 
-    return {"separable": separable, "coupled": coupled, "first": first}
+    def ramp(*args):
+        # exactly zero on a large part of the product set (whole chunks of zeros), non-zero elsewhere: added after seeded
+        # change C18-E was missed (an all-zero chunk taken for the end of the stream)
+        tot = 0.0
+        for k, (a, is3) in enumerate(zip(args, dims)):
+            tot = tot + (1 if k % 2 == 0 else -1) * _s(a, is3)
+        return np.maximum(0.0, tot - 0.2) * 1.5
+
+    return {"separable": separable, "coupled": coupled, "first": first, "ramp": ramp}
 
 
 def reference(grids, f):
@@ -258,6 +266,63 @@ EXTRAS = ("rule-x-rule", "atom-x-rule", "rule-x-atom", "uniform2d-x-grid", "same
           "above-default-chunk")
 
 
+def _history_case(arg):
+    """use the multi-domain grid, reassign a member grid's weights / points through the setters, use it again: every
+    route and the enumerated points and weights answer for the member grids' CURRENT arrays (added after seeded change
+    C18-F was missed: per-domain arrays looked up once and kept)."""
+    mode, what, seed = arg
+    from grid.basegrid import Grid
+    from grid.ngrid import MultiDomainGrid
+
+    res = WorkerResult(section="history")
+    case = {"route": "history", "mode": mode, "what": what}
+    rng = np.random.default_rng([seed, 181])
+    g1 = Grid(rng.uniform(-1, 1, 3), rng.uniform(0.2, 1.0, 3))
+    g2 = Grid(rng.uniform(-1, 1, 4), rng.uniform(0.2, 1.0, 4) * np.array([1, -0.5, 1, 1]))
+    if mode == "repeated":
+        grids = [g1, g1]
+        md = MultiDomainGrid([g1], num_domains=2)
+    else:
+        grids = [g1, g2]
+        md = MultiDomainGrid([g1, g2])
+    f = lambda x, y: np.exp(-0.3 * (np.asarray(x) - 2 * np.asarray(y)) ** 2) + 0.2 * np.asarray(x)
+    first_use = {"integrate": lambda: md.integrate(f), "pointwise": lambda: md.integrate(f, non_vectorized=True),
+                 "weights": lambda: list(md.weights), "points": lambda: list(md.points), "size": lambda: md.size}
+    for use in first_use:
+        res.count()
+        with warnings.catch_warnings():
+            warnings.simplefilter("ignore")
+            g1.weights = np.array([0.7, 0.4, 0.9])
+            g1.points = np.array([-0.5, 0.1, 0.8])
+            first_use[use]()
+            if what == "weights":
+                g1.weights = np.array([1.3, -0.2, 0.6])
+            elif what == "points":
+                g1.points = np.array([0.9, -0.7, 0.3])
+            else:
+                g1.weights *= 2.0
+                g1.points += 0.1
+            ref, scale = reference(grids, f)
+            got_v = float(md.integrate(f))
+            got_p = float(md.integrate(f, non_vectorized=True, integration_chunk_size=5))
+            ws = [float(v) for v in md.weights]
+            ps = list(md.points)
+        ref_w = [float(np.prod(c)) for c in itertools.product(*[list(g.weights) for g in grids])]
+        ref_p = list(itertools.product(*[list(g.points) for g in grids]))
+        res.nontrivial()
+        c2 = dict(case, first_use=use)
+        if not abs(got_v - ref) <= 1e-12 * scale + 1e-15:
+            res.violation("history:vectorised:answers-for-old-member-arrays", f"after {use}, reassigning {what} of a member grid and integrating "
+                          f"again (vectorised): {got_v!r}, nested sum over the current arrays {ref!r}", c2)
+        if not abs(got_p - ref) <= 1e-12 * scale + 1e-15:
+            res.violation("history:pointwise:answers-for-old-member-arrays", f"after {use}, reassigning {what} of a member grid and integrating "
+                          f"again (point by point): {got_p!r}, nested sum over the current arrays {ref!r}", c2)
+        if not (np.allclose(ws, ref_w, rtol=1e-14, atol=0) and all(all(np.array_equal(a, b) for a, b in zip(p, q)) for p, q in zip(ps, ref_p))):
+            res.violation("history:generators:answer-for-old-member-arrays", f"after {use} and reassigning {what}: enumerated points / weights "
+                          f"are not the product set of the current member arrays", c2)
+    return res.as_dict()
+
+
 def configs(thorough):
     out = []
     for nd in (1, 2, 3):
@@ -283,6 +348,9 @@ def run(ctx):
         ctx.merge(res)
     for res in lattice.pmap(_extra, [(n, ctx.seed) for n in EXTRAS], ctx.workers):
         ctx.merge(res)
+    hist = [(m, w, ctx.seed) for m in ("list", "repeated") for w in ("weights", "points", "augmented")]
+    for res in lattice.pmap(_history_case, hist, ctx.workers):
+        ctx.merge(res)
     # constructor validation
     from grid.ngrid import MultiDomainGrid
 
@@ -302,6 +370,8 @@ def run(ctx):
 def replay(ctx, case):
     if case.get("route") == "validation":
         return run(ctx)
+    if case.get("route") == "history":
+        return ctx.merge(_history_case((case["mode"], case["what"], ctx.seed)))
     if case.get("route") == "extra":
         return ctx.merge(_extra((case["list"], ctx.seed)))
     ctx.merge(_config((tuple(case["sizes"]), case["pattern"], case["repeated"], ctx.seed)))
